@@ -89,6 +89,15 @@ Proof. intros R. unfold assign. rewrite R. reflexivity. Qed.
 Lemma assign_ro_pres x l app : var_ro_pres x (fst (assign x l app)).
 Proof. intros R. rewrite assign_readonly by exact R. cbn. auto. Qed.
 
+Lemma assign_at_index_readonly x ix v app : v_ro x = true -> assign_at_index x ix v app = (x, Some EReadonly).
+Proof. intros R. unfold assign_at_index. rewrite R. reflexivity. Qed.
+
+Lemma assign_at_index_ro_pres x ix v app : var_ro_pres x (fst (assign_at_index x ix v app)).
+Proof. intros R. rewrite assign_at_index_readonly by exact R. cbn. auto. Qed.
+
+Lemma unset_index_readonly x ix : v_ro x = true -> unset_index x ix = Err EReadonly.
+Proof. intros R. unfold unset_index. rewrite R. reflexivity. Qed.
+
 Lemma var_ro_pres_refl x : var_ro_pres x x.
 Proof. intros R; auto. Qed.
 
@@ -179,6 +188,26 @@ Proof.
     apply env_add_unbound_ro_pres. intros j _. eapply find_any_none. exact F.
 Qed.
 
+Lemma update_or_add_elem_ro_pres n ix v e : ro_pres e (fst (update_or_add_elem n ix v PAnywhere KGlobal e)).
+Proof.
+  unfold update_or_add_elem. destruct (find_pol PAnywhere 0 n e) as [i|] eqn:F.
+  - destruct (scope_get i n e) as [x|] eqn:G; [|apply ro_pres_refl].
+    pose proof (assign_at_index_ro_pres x ix v false) as HA.
+    destruct (assign_at_index x ix v false) as [x' er]; cbn [fst] in *. apply scope_set_ro_pres; intros x0 G0.
+    rewrite G in G0; inversion G0; subst x0. exact HA.
+  - destruct (assign tombstone _ false) as [x' [er|]]; cbn [fst]; [apply ro_pres_refl|].
+    apply env_add_unbound_ro_pres. intros j _. eapply find_any_none. exact F.
+Qed.
+
+Lemma env_unset_index_ro_pres n ix e : ro_pres e (fst (env_unset_index n ix e)).
+Proof.
+  unfold env_unset_index. destruct (find_pol PAnywhere 0 n e) as [i|]; [|apply ro_pres_refl].
+  destruct (scope_get i n e) as [x|] eqn:G; [|apply ro_pres_refl].
+  destruct (unset_index x ix) as [[x' b]|er] eqn:U; cbn [fst]; [|apply ro_pres_refl].
+  apply scope_set_ro_pres. intros x0 G0. rewrite G in G0. inversion G0; subst x0.
+  intros R. rewrite (unset_index_readonly x ix R) in U. discriminate.
+Qed.
+
 Lemma env_unset_ro_pres n e : ro_pres e (fst (env_unset n e)).
 Proof.
   unfold env_unset. destruct (find_pol PAnywhere 0 n e) as [i|]; [|apply ro_pres_refl].
@@ -253,9 +282,9 @@ Qed.
     caller has just pushed the Command scope. *)
 Lemma apply_assignment_ro_pres n l app ex rq cr e :
   (rq = None /\ cr = KGlobal) \/ (rq = Some KCommand /\ cr = KCommand /\ exists m e0, e = (KCommand, m) :: e0) ->
-  ro_pres e (fst (apply_assignment n None l app ex rq cr e)).
+  forall ix, ro_pres e (fst (apply_assignment n ix l app ex rq cr e)).
 Proof.
-  intros Hrq. unfold apply_assignment.
+  intros Hrq ix. unfold apply_assignment.
   match goal with |- context [match find_pol _ _ _ _ with Some _ => _ | None => ?c end] => set (create := c) end.
   destruct (find_pol PAnywhere 0 n e) as [i|] eqn:F.
   - pose proof (find_pol_bound _ _ _ _ _ F) as HB.
@@ -263,36 +292,38 @@ Proof.
     destruct (scope_kind i e) as [k|] eqn:K.
     2:{ unfold scope_kind, scope_get, scope, vmap in *. destruct (nth_error e i) as [[? ?]|]; discriminate. }
     destruct (match rq with Some rk => kind_eqb k rk | None => true end) eqn:Q.
-    + pose proof (assign_ro_pres x l app) as HA.
-      destruct (assign x l app) as [x' [er|]]; cbn [fst] in *; apply scope_set_ro_pres; intros x0 G0;
-        rewrite G in G0; inversion G0; subst x0; [exact HA|].
-      intros R. destruct (HA R). destruct ex; cbn; auto.
+    + destruct ix as [ixs|].
+      * destruct l as [s|items]; [|apply ro_pres_refl].
+        pose proof (assign_at_index_ro_pres x ixs s app) as HA.
+        destruct (assign_at_index x ixs s app) as [x' [er|]]; cbn [fst] in *; apply scope_set_ro_pres; intros x0 G0;
+          rewrite G in G0; inversion G0; subst x0; [exact HA|].
+        intros R. destruct (HA R). destruct ex; cbn; auto.
+      * pose proof (assign_ro_pres x l app) as HA.
+        destruct (assign x l app) as [x' [er|]]; cbn [fst] in *; apply scope_set_ro_pres; intros x0 G0;
+          rewrite G in G0; inversion G0; subst x0; [exact HA|].
+        intros R. destruct (HA R). destruct ex; cbn; auto.
     + subst create. destruct Hrq as [[-> _]|(-> & -> & m & e0 & ->)]; [discriminate|].
-      destruct (match l with LScalar s => _ | LArray items => _ end) as [v|er]; cbn [fst]; [|apply ro_pres_refl].
+      destruct (match ix with Some _ => _ | None => _ end) as [v|er]; cbn [fst]; [|apply ro_pres_refl].
       apply env_add_unbound_ro_pres. intros j Hj. cbn in Hj. inversion Hj; subst j.
       destruct i as [|i].
       * unfold scope_kind in K. cbn in K. inversion K; subst k. discriminate.
       * eapply find_any_first; [exact F | lia].
   - subst create.
-    destruct (match l with LScalar s => _ | LArray items => _ end) as [v|er]; cbn [fst]; [|apply ro_pres_refl].
+    destruct (match ix with Some _ => _ | None => _ end) as [v|er]; cbn [fst]; [|apply ro_pres_refl].
     apply env_add_unbound_ro_pres. intros j _. eapply find_any_none. exact F.
 Qed.
 
-(** ** the class of element writers (the known findings' class) *)
-Definition tassign_safe (t : tassign) : bool :=
-  match t with (_, None, _, _) => true | _ => false end.
+(** ** the remaining class: `declare -a/-A` (conversion of an unset readonly name) *)
+Definition tassign_safe (t : tassign) : bool := true.
 
 Definition bcmd_ro_safe (b : bcmd) : bool :=
   match b with
-  | BUnsetElem _ _ => false
   | BDeclare _ f _ => negb (f_a f) && negb (f_A f)
   | _ => true
   end.
 
 Fixpoint ro_safe (a : action) : bool :=
   match a with
-  | AAssign _ ix _ _ => match ix with None => true | Some _ => false end
-  | ASetElem _ _ _ => false
   | ACmd ts c =>
       forallb tassign_safe ts &&
       match c with
@@ -317,6 +348,7 @@ Proof.
   - apply andb_true_iff in S. destruct S as [S1 S2]. apply negb_true_iff in S1, S2. apply do_declare_ro_pres; assumption.
   - apply do_export_ro_pres.
   - apply env_unset_ro_pres.
+  - apply env_unset_index_ro_pres.
   - apply update_or_add_ro_pres.
   - apply ro_pres_refl.
   - apply ro_pres_refl.
@@ -327,10 +359,10 @@ Lemma apply_temps_ro_pres ts : forall m e0, forallb tassign_safe ts = true ->
 Proof.
   induction ts as [|[[[n ix] l] app] ts IH]; intros m e0 S; [apply ro_pres_refl|].
   cbn [forallb] in S. apply andb_true_iff in S. destruct S as [S1 S2].
-  destruct ix; [discriminate|]. cbn [apply_temps].
+  cbn [apply_temps].
   pose proof (apply_assignment_ro_pres n l app true (Some KCommand) KCommand ((KCommand, m) :: e0)
-                (or_intror (conj eq_refl (conj eq_refl (ex_intro _ m (ex_intro _ e0 eq_refl)))))) as H.
-  pose proof (apply_assignment_kinds n None l app true (Some KCommand) KCommand ((KCommand, m) :: e0)) as HK.
+                (or_intror (conj eq_refl (conj eq_refl (ex_intro _ m (ex_intro _ e0 eq_refl))))) ix) as H.
+  pose proof (apply_assignment_kinds n ix l app true (Some KCommand) KCommand ((KCommand, m) :: e0)) as HK.
   destruct (apply_assignment _ _ _ _ _ _ _ _) as [e' [er|]]; cbn [fst] in *; [exact H|].
   destruct e' as [|[k' m'] e0']; [discriminate|]. cbn in HK. inversion HK; subst k'.
   eapply ro_pres_trans; [exact H | apply IH; exact S2].
@@ -344,12 +376,13 @@ Proof. apply apply_temps_ro_pres. Qed.
 Theorem readonly_invariant_exec : forall a e, ro_safe a = true -> ro_pres e (env_of (exec a e)).
 Proof.
   intros a. induction a using action_ind'; intros e S; cbn [ro_safe] in S.
-  - destruct ix; [discriminate|]. cbn [exec].
-    pose proof (apply_assignment_ro_pres n l app false None KGlobal e (or_introl (conj eq_refl eq_refl))) as H.
+  - cbn [exec].
+    pose proof (apply_assignment_ro_pres n l app false None KGlobal e (or_introl (conj eq_refl eq_refl)) ix) as H.
     destruct (apply_assignment _ _ _ _ _ _ _ e) as [e' [er|]]; exact H.
   - cbn [exec]. pose proof (update_or_add_ro_pres n l UpdNone e) as H.
     destruct (update_or_add _ _ _ _ _ e) as [e' [er|]]; exact H.
-  - discriminate.
+  - cbn [exec]. pose proof (update_or_add_elem_ro_pres n ix v e) as H.
+    destruct (update_or_add_elem _ _ _ _ _ e) as [e' [er|]]; exact H.
   - cbn [exec]. destruct (match get n e with Some _ => _ | None => true end); [|apply ro_pres_refl].
     pose proof (update_or_add_ro_pres n (LScalar v) UpdNone e) as H.
     destruct (update_or_add _ _ _ _ _ e) as [e' [er|]]; exact H.
@@ -389,33 +422,18 @@ Proof.
       unfold env_of; cbn [fst]; eapply ro_pres_pop_r; exact HT.
 Qed.
 
-(** ** refutations on the element paths (the code as it is) *)
-Definition ro_arr : var := mkVar (VIdx [(0, [49%N])]) false true false XNone.
-
-Lemma assign_at_index_readonly_refuted :
-  exists x ix v, v_ro x = true /\ snd (assign_at_index x ix v false) = None /\
-                 content (v_val (fst (assign_at_index x ix v false))) <> content (v_val x).
-Proof. exists ro_arr, [48%N], [120%N]. vm_compute. repeat split; discriminate. Qed.
-
-Lemma unset_index_readonly_refuted :
-  exists x ix x', v_ro x = true /\ unset_index x ix = Ok (x', true) /\ content (v_val x') <> content (v_val x).
-Proof. exists ro_arr, [48%N], (set_val ro_arr (VIdx [])). vm_compute. repeat split; discriminate. Qed.
-
-(** the full statement (all actions) is false: a witness program *)
+(** ** what is left of the refutation: `readonly n; declare -a n` gives the unset name an element *)
 Definition va : str := [118; 97]%N.
-Definition ro_elem_witness : list action :=
-  [ACmd [] (CBuiltin (BDeclare DReadonly (mkFlags false false None None None None None None false)
-                        (DArray va [(None, [49%N])])));
-   AAssign va (Some [48%N]) (LScalar [120%N]) false].
+Definition no_fl0 : dflags := mkFlags false false None None None None None None false.
 
 Lemma readonly_invariant_refuted :
   exists a e, ~ ro_pres e (env_of (exec a e)).
 Proof.
-  exists (AAssign va (Some [48%N]) (LScalar [120%N]) false).
-  exists (env_of (exec (hd AReturn ro_elem_witness) env_new)).
+  exists (ACmd [] (CBuiltin (BDeclare DDeclare (mkFlags true false None None None None None None false) (DName va)))).
+  exists (env_of (exec (ACmd [] (CBuiltin (BDeclare DReadonly no_fl0 (DName va)))) env_new)).
   vm_compute. intros H. inversion H as [|? ? ? ? [_ M] _]; subst.
-  destruct (M va ro_arr eq_refl eq_refl) as (x' & G & _ & C). vm_compute in G. inversion G; subst x'.
-  vm_compute in C. discriminate.
+  destruct (M va (mkVar (VUnset UUntyped) false true false XNone) eq_refl eq_refl) as (x' & G & _ & C).
+  vm_compute in G. inversion G; subst x'. vm_compute in C. discriminate.
 Qed.
 
 (** shadowing: the *visible* value of a readonly name changes under `local` and under a prefix
